@@ -128,8 +128,6 @@ def order_bodies(thorough=False):
     out = []
     for k in (1, 2, 3):
         for seq in itertools.product("fxXFG", repeat=k):
-            if k == 3 and not thorough and sum(c in "XG" for c in seq) > 1:
-                continue            # quick: at most one of the two large (3M) kinds in a 3-part layout
             parts = [kinds[c](i) for i, c in enumerate(seq)]
             out.append(("order:" + "".join(seq), tuple(parts), c01.build_body(parts, B)))
     return out
@@ -593,8 +591,8 @@ def tier_params(tier):
                     short_bs=lambda L, n: (range(1, n + 2) if n <= 160 else
                                            sorted({1, 2, 7, L - 1, L, L + 1, n, n + 1})),
                     form_dev=1, all_lengths=True)
-    return dict(Ls=(16, 32, 48), Ls_D=(16, 32), Ls_P=(16, 48), Ls_F=(16, 48),
-                short_bs=lambda L, n: sorted({1, 7, L, n + 1}), form_dev=1, all_lengths=False)
+    return dict(Ls=(16, 32, 48, 64), Ls_D=(16, 32), Ls_P=(16, 32, 48, 64), Ls_F=(16, 48, 64),
+                short_bs=lambda L, n: sorted({1, 2, 7, L - 1, L, L + 1, n, n + 1}), form_dev=1, all_lengths=False)
 
 
 def mfms_values(L, n, tier, tiny):
